@@ -20,6 +20,18 @@ PROPS = ['C%02d' % i for i in range(1, 21)]
 WITH_TESTS = False  # --with-tests: also copy /repo/test, so the quick tier parses its test-unit subset as on /repo
 
 
+def _declared_limits():
+    import json
+    try:
+        idx = json.load(open(os.path.join(HERE, 'benign', 'index.json')))
+    except OSError:
+        return {}
+    return {p['file']: tuple(p.get('undecided', ())) for p in idx.get('patches', [])}
+
+
+DECLARED_LIMITS = _declared_limits()
+
+
 def run_one(args):
     diff, props = args
     base = tempfile.mkdtemp(prefix='yv_ben_', dir='/tmp')
@@ -39,6 +51,11 @@ def run_one(args):
                                stdout=subprocess.PIPE, stderr=subprocess.STDOUT, text=True, env=env, cwd=VERIF)
             if r.returncode == 0:
                 res.append((prop, 'OK', ''))
+            elif r.returncode == 2 and prop in DECLARED_LIMITS.get(os.path.basename(diff), ()):
+                # a declared limit of the analysis (index.json "undecided"): exit 2, never a VIOLATION line
+                res.append((prop, 'OK', ''))
+                print('%-14s %s: exit 2 as declared (form outside the analysis, see DESIGN.md section 7)' % (
+                    os.path.basename(diff), prop))
             else:
                 res.append((prop, 'FALSE-ALARM' if r.returncode == 1 else 'BROKEN', r.stdout[-1800:]))
         return diff, res
